@@ -379,6 +379,7 @@ func init() {
 			"(splitbyte) Split(b) for every byte value b = 0x00..0xFF: legal records {all 255 other byte values, b+1 b-1 b^0x80, empty, the UTF-8 encoding of U+00<b> alone / as prefix / as suffix / inside text / repeated across the read buffer where it does not contain b (0xC0..0xFF except 0xC3), each byte of that encoding alone, 4097 and <300 random legal bytes} " +
 			"interleaved on one sending channel with unrepresentable records {b at the start, middle, end; b next to the UTF-8 spelling; C2 b, C3 b, b 80, b BF; the encoding itself where it contains b; 4096/4097 bytes with one b}, each of which must be refused with nothing written, x {whole, 1-byte, 3-byte reads, record boundaries +-1, 2 random cut sets}. " +
 			"(X) one operation suspended inside its transport call (Write of a Send after k bytes / Read of a Recv at offset k, k in {0,1,middle,end of the first record}) while complete operations run elsewhere: two sends or two receives on a sibling channel made by the same Framing value, or on the same channel in the other direction; record sizes {3,5000,70000,5MiB+3} x {2,6000,5MiB+17} (more in thorough), every framing; both sides judged by the usual oracle. " +
+			"(W) seeded sequences of 2-11 records sent over a writer that refuses every Write (0 bytes, error) issued during seeded Sends while the sender carries on: the stream, read whole and through random cuts, holds exactly the records whose Send returned nil, in order (a record whose Send failed is not delivered later, one whose Send succeeded is not lost; a framing that fails every Send after the first failure is admitted). " +
 			"evaluations = stream decodes (one per stream x cut set x EOF mode). distinct_nontrivial = distinct (framing, record sequence, chunking family, EOF mode) with >= 2 records " +
 			"or >= 1 interior cut; the number of individual cut sets is the counter cut_sets",
 		Assumptions: []string{
@@ -391,6 +392,7 @@ func init() {
 		Require: map[string]int64{
 			"records_received": 100000, "stream_decodes": 50000, "cut_sets": 50000,
 			"refusals_checked": 30, "split_bytes_covered": 256, "split_bytes_non_ascii": 128, "refusals_non_ascii_split": 1000, "legal_records_with_utf8_of_split": 300, "records_ge_1MiB": 20, "eof_with_last_bytes": 1000, "interleavings_reached": 1000,
+			"w_sends_over_failing_writer": 100, "w_records_delivered_after_a_failure": 100,
 		},
 		Cases: c11cases,
 	})
@@ -549,7 +551,12 @@ func c11cases(e vt.Env, yield func(vt.Case) bool) {
 	}
 
 	// (X) a channel in company: siblings of one Framing value, both directions at once
-	c11xCases(e, yield)
+	if !c11xCases(e, yield) {
+		return
+	}
+
+	// (W) a writer that fails, writing nothing, during some Sends
+	c11wCases(e, yield)
 }
 
 func c11pick(alpha [][]byte, seq []int) [][]byte {
